@@ -25,5 +25,7 @@ let () = iter_lines (fun line ->
        let fs = String.concat ";" (List.map (fun ((n, m), s) -> hx n ^ ":" ^ meth m ^ ":" ^ string_of_int (int_of_z s)) (files p)) in
        let pre = match attribute p (zs [112;114;101;102;105;120]) with None -> "NONE" | Some v -> "S" ^ hx v in
        let rd = match read_entry l p name with None -> "NONE" | Some d -> "S" ^ hx d in
-       Printf.sprintf "OK\t%s\t%s\t%s\t%s" ats fs pre rd)
+       let all = String.concat ";" (List.map (fun ((n, _), _) ->
+           match read_entry l p n with None -> "NONE" | Some d -> "S" ^ hx d) (files p)) in
+       Printf.sprintf "OK\t%s\t%s\t%s\t%s\t%s" ats fs pre rd all)
   | _ -> "BADLINE")
